@@ -145,7 +145,7 @@ def build(lang, ch):
     b = Builder(lang)
     UNITS = ['recursive', 'recursive', 'ret-only-generic', 'ret-only-generic', 'box', 'reassigned',
                                            'chain', 'lambda-arg', 'phantom', 'global-reassigned', 'nested-func', 'nested-func',
-                                           'generic-call']
+                                           'generic-call', 'receiver-new', 'receiver-new', 'nested-reassigned', 'make-generic']
     units = [ch.pick(UNITS) for _ in range(ch.integer(1, 4))]
     labels = []
     for u in units:
@@ -231,6 +231,51 @@ def build(lang, ch):
             call = ast.FunctionCall(iname, args)
             b.func(b.G, oname, [], ret, ast.Block([inner, call]))
             labels.append('nested-func/%d%s/%s' % (nfixed, '+vararg%d' % nvar if vararg else '', 'block' if block else 'expression'))
+        elif u == 'receiver-new':
+            # a constructor call in *receiver* position (no expected type there): its explicit type argument is
+            # determined by nothing but itself, although the enclosing declaration has a declared type of the same class
+            T = tp.TypeParameter('R%d' % b.n)
+            cname = b.name('Node')
+            targ = ch.pick([b.string(), b.integer()])
+            c = b.cls(cname, type_params=[T])
+            con = c.get_type()
+            fld = ast.FieldDeclaration(b.name('next'), con.new([targ]), is_final=True)
+            c.fields.append(fld)
+            b.ctx.add_var(b.G + (cname,), fld.name, fld)
+            dname = b.name('dup')
+            b.func(b.G + (cname,), dname, [], con.new([T]), ast.BottomConstant(con.new([T])), cls=c)
+            how = ch.pick(['field', 'call'])
+            recv = ast.New(con.new([targ]), [ast.BottomConstant(con.new([targ]))])
+            e = ast.FieldAccess(recv, fld.name) if how == 'field' else ast.FunctionCall(dname, [], receiver=recv)
+            vname = b.name('n')
+            v = ast.VariableDeclaration(vname, e, is_final=True, var_type=con.new([targ]))
+            b.func(b.G, b.name('walk'), [], con.new([targ]), ast.Block([v, ast.Variable(vname)]))
+            labels.append('receiver-new/' + how)
+        elif u == 'nested-reassigned':
+            # a variable with a declared supertype, initialised from a top-level variable declared *later*, and assigned
+            # from a nested scope (a function declared inside the function)
+            gname, vname = b.name('late'), b.name('w')
+            wide = b.anyt()
+            v = ast.VariableDeclaration(vname, ast.Variable(gname), is_final=False, var_type=wide)
+            uname, iname = b.name('late_user'), b.name('setter')
+            asg = ast.Assignment(vname, ast.IntegerConstant(5, b.integer()))
+            inner = b.func(b.G + (uname,), iname, [], b.f.get_void_type(), ast.Block([asg]))
+            b.func(b.G, uname, [], b.f.get_void_type(), ast.Block([v, inner, ast.FunctionCall(iname, [])]))
+            g = ast.VariableDeclaration(gname, ast.StringConstant('g'), is_final=True, var_type=b.string())
+            b.ctx.add_var(b.G, gname, g)
+            labels.append('nested-reassigned')
+        elif u == 'make-generic':
+            # fun <X> make(): Shelf<X>  called as  val s: Shelf<String> = make<String>()
+            X = tp.TypeParameter('M%d' % b.n)
+            c = b.cls(b.name('Shelf'), type_params=[tp.TypeParameter('S%d' % b.n)])
+            con = c.get_type()
+            mname = b.name('make')
+            b.func(b.G, mname, [], con.new([X]), ast.BottomConstant(con.new([X])), type_params=[X])
+            targ = ch.pick([b.string(), b.integer()])
+            vname = b.name('s')
+            v = ast.VariableDeclaration(vname, ast.FunctionCall(mname, [], type_args=[targ]), is_final=True, var_type=con.new([targ]))
+            b.func(b.G, b.name('shelve'), [], con.new([targ]), ast.Block([v, ast.Variable(vname)]))
+            labels.append('make-generic')
         elif u == 'generic-call':
             # explicit type argument that the argument determines (erasable, and a site TypeOverwriting can pick)
             T = tp.TypeParameter('I%d' % b.n)
